@@ -265,10 +265,8 @@ fn wordlike_n<const N: usize>() {
     }
     let s = as_str(&a);
     let yaml_12: bool = kani::any();
-    if is_plain_safe(s) {
-        let ok = plain_reads_back(&a, true, false, false);
-        assert!(ok || !(e2e_string_mismatch(s, 3, false, false) || e2e_untyped_mismatch(s, 3, false)), "a word-like key is emitted plain although it reads back as something else");
-    }
+    // value position first: a failing assertion ends the path, and mis-quoting in value position is
+    // the one an untyped / Option reader observes (keys are read as strings by most targets)
     if is_plain_value_safe(s, yaml_12, false) {
         let ok = plain_reads_back(&a, false, false, yaml_12);
         let confirmed = e2e_string_mismatch(s, 0, false, yaml_12)
@@ -279,6 +277,10 @@ fn wordlike_n<const N: usize>() {
         kani::cover!(true, "some word is plain-safe");
     } else {
         kani::cover!(true, "some word must be quoted");
+    }
+    if is_plain_safe(s) {
+        let ok = plain_reads_back(&a, true, false, false);
+        assert!(ok || !(e2e_string_mismatch(s, 3, false, false) || e2e_untyped_mismatch(s, 3, false)), "a word-like key is emitted plain although it reads back as something else");
     }
 }
 
